@@ -186,13 +186,16 @@ def npFftshift {α} (xs : List α) : List α :=
   let s := xs.length / 2
   if s = 0 then xs else xs.drop (xs.length - s) ++ xs.take (xs.length - s)
 
+/-- `offset_pos`, `offset_neg`, `poslen`, `neglen` of `MagicMaskFunc.mask_func` -/
+def magicOffPos (offset : Int) : Int := if offset % 2 = 0 then offset + 1 else offset - 1 + 3
+def magicOffNeg (offset : Int) : Int := if offset % 2 = 0 then offset + 2 else offset - 1 + 0
+def magicPosLen (n : Int) : Int := (n + 1) / 2
+def magicNegLen (n : Int) : Int := n - (n + 1) / 2
+
 /-- One frame of `MagicMaskFunc.mask_func` for the drawn `offset`. -/
 def magicPattern (n adj offset : Nat) : List Bool :=
-  let offPos := if offset % 2 = 0 then offset + 1 else offset - 1 + 3
-  let offNeg := if offset % 2 = 0 then offset + 2 else offset - 1 + 0
-  let poslen := (n + 1) / 2
-  let neglen := n - (n + 1) / 2
-  npFftshift (strided poslen offPos adj ++ (strided neglen offNeg adj).reverse)
+  npFftshift (strided (magicPosLen n).toNat (magicOffPos offset).toNat adj ++
+    (strided (magicNegLen n).toNat (magicOffNeg offset).toNat adj).reverse)
 
 /-! ## Gaussian rejection loop (`gaussian_mask_1d` / `gaussian_mask_2d`) -/
 
@@ -366,6 +369,21 @@ def Gen.acceptsCropCorner : Gen → Bool
 
 /-- mode of the instance `build_masking_function(name, …, mode = m)` returns -/
 def Gen.effectiveMode (g : Gen) (m : Mode) : Mode := if g.isKt then .dynamic else m
+
+/-- well-formedness of the table "what every `return` of `mask_func` is wrapped in" extracted from the
+source: for each of the 14 generators at least two returns (the `return_acs` branch and the mask), each
+`self._reshape_and_add_coil_axis(…, shape)`, and for the `center_mask_func` line generators each through
+`self._broadcast_mask(…, num_rows)`.  Entries: `(wrapped, through _broadcast_mask)`. -/
+def returnTableOk (tbl : List (String × List (Bool × Bool))) : Bool :=
+  Gen.all.all fun g =>
+    match tbl.lookup g.name with
+    | some rets => decide (2 ≤ rets.length) && rets.all fun (w, b) => w && (g.family != .line || b)
+    | none => false
+
+/-- the constructor-parameter table `build_masking_function` filters its keyword arguments with:
+`(name, accepts center_fractions, uniform_range, mode, crop_corner)` -/
+def buildTable : List (String × Bool × Bool × Bool × Bool) :=
+  Gen.all.map fun g => (g.name, g.accepts.1, g.accepts.2.1, g.accepts.2.2, g.acceptsCropCorner)
 
 /-- how the ACS region is specified to `assemble` -/
 inductive AcsSpec where
